@@ -338,19 +338,28 @@ def _r2_startup(ctx, docs):
             _startup_case(ctx, ini, du, unc, nonlin)
     _startup_case(ctx, ini, du, UNC_F, False, ic=False)
     for unc in (UNC_F, CPL):
-        _startup_case(ctx, ini, du, unc, False, rf=True)
+        _startup_case(ctx, ini, du, unc, False, rf="trailing")
+        _startup_case(ctx, ini, du, unc, False, rf="interleaved")
 
 
-def _startup_case(ctx, ini, du, unc, nonlin, ic=True, rf=False):
-    tag = f"SolveNewmark._init_dva ({_cfg(unc, nonlin)}{'' if ic else ', no initial conditions given'}{', one trailing rf mode' if rf else ''})"
+def _ivec(*idx):
+    return I.NDArr.new((len(idx),), list(idx))
+
+
+def _startup_case(ctx, ini, du, unc, nonlin, ic=True, rf=None):
+    how = {None: "", "trailing": ", one trailing rf mode (slice partitions)", "interleaved": ", one interleaved rf mode (index-vector partitions)"}[rf]
+    tag = f"SolveNewmark._init_dva ({_cfg(unc, nonlin)}{'' if ic else ', no initial conditions given'}{how})"
     terms = NLTerms() if nonlin else None
     it = I.Interp(ctx, on_opaque=terms.hook if terms else None)
     me = _nm_self(it, unc, terms)
     ntot = N + 1 if rf else N
-    K_ = slice(0, N)
+    K_, RF_ = slice(0, N), slice(N, ntot)
     if rf:
         ikrf = mat("ikrf", 1, 1)
-        me.attrs.update(n=ntot, rfsize=1, rf=slice(N, ntot), nonrf=K_, kdof=K_, el=K_, ikrf=ikrf if unc else I.LU(inv=ikrf))
+        if rf == "interleaved":
+            K_, RF_ = _ivec(0, 2), _ivec(1)
+            me.attrs.update(slices=False)
+        me.attrs.update(n=ntot, rfsize=1, rf=RF_, nonrf=K_, kdof=K_, el=K_, ikrf=ikrf if unc else I.LU(inv=ikrf))
     f = mat("f", ntot, NT)
     d0f, v0f = (vec("d0", ntot), vec("v0", ntot)) if ic else (None, None)
     ok, res = _guard(ctx, tag, ini, lambda: it.call_method(me, "_init_dva", f, d0f, v0f))
@@ -399,20 +408,22 @@ def _startup_case(ctx, ini, du, unc, nonlin, ic=True, rf=False):
     ctx.check(ok, f"{tag}: the returned force is inv(A) F/3 of the non-rf equations with F_0 replaced (what the recurrence in tsolve adds directly)", ini,
               None if ok else _show(frc))
     if rf:
-        ok = all(_eq(d[N:, j], ikrf @ f[N:, j]) for j in range(NT))
+        ok = all(_eq(d[RF_, j], ikrf @ f[RF_, j]) for j in range(NT))
         ctx.check(ok, f"{tag}: the rf equations are solved statically, d_rf = inv(K_rf) F_rf at every step, initial conditions ignored", ini,
-                  None if ok else _show(d[N:]))
+                  None if ok else _show(d[RF_]))
 
 
 # ---------------------------------------------------------------------------
 class TsolveRun:
     """SolveNewmark.tsolve evaluated after a start-up step that left symbols in the arrays (the contract of _init_dva checked by R2)"""
 
-    def __init__(self, ctx, unc, nonlin):
+    def __init__(self, ctx, unc, nonlin, index_partition=False):
         self.unc, self.nonlin = unc, nonlin
         self.terms = NLTerms() if nonlin else None
         self.it = it = I.Interp(ctx, on_opaque=self.terms.hook if self.terms else None)
         self.me = me = _nm_self(it, unc, self.terms)
+        if index_partition:       # partitions that could not be turned into slices: `d[kdof]` is a copy that has to be written back
+            me.attrs.update(slices=False, kdof=_ivec(*range(N)), nonrf=_ivec(*range(N)), el=_ivec(*range(N)))
         self.u0, self.u1, self.v0, self.a0, self.um1 = vec("u0"), vec("u1"), vec("v0"), vec("a0"), vec("um1")
         zero = F.const(0)
         self.d, self.v, self.a = (I.NDArr.full((N, NT), zero, lbl) for lbl in "dva")
@@ -467,17 +478,17 @@ def _tsolve_runs(ctx):
         return fn, runs
     runs = {}
     n0 = len(ctx.obls)
-    for unc in (UNC_F, CPL):
-        for nonlin in (False, True):
-            tag = f"tsolve ({_cfg(unc, nonlin)})"
-            r = TsolveRun(ctx, unc, nonlin)
+    for unc, nonlin, ip in ((UNC_F, False, False), (UNC_F, True, False), (CPL, False, False), (CPL, True, False), (UNC_F, True, True)):
+        if True:
+            tag = f"tsolve ({_cfg(unc, nonlin)}{', index-vector partition' if ip else ''})"
+            r = TsolveRun(ctx, unc, nonlin, ip)
             ok, _ = _guard(ctx, tag, fn, r.run)
             if ok:
                 ok = isinstance(r.sol, I.Obj) and r.sol_args is not None and len(r.sol_args) >= 3 and \
                     all(x is y for x, y in zip(r.sol_args[:3], (r.d, r.v, r.a)))
                 if not ok:
                     ctx.fail(f"{tag}: the solution is built from the arrays d, v, a of the start-up step", fn)
-            runs[(unc, nonlin)] = r if ok else None
+            runs[(unc, nonlin) + (("index",) if ip else ())] = r if ok else None
     ctx._c17_tsolve = (runs, list(ctx.obls[n0:]))
     return fn, runs
 
@@ -497,6 +508,7 @@ def _subs_arr(a, mp):
 
 def r1_four_branch_agreement(ctx):
     fn, runs = _tsolve_runs(ctx)
+    ri = runs.pop((UNC_F, True, "index"), None)
     for (unc, nonlin), r in runs.items():
         if r is None:
             continue
@@ -537,11 +549,16 @@ def r1_four_branch_agreement(ctx):
         same = _eq(_subs_arr(r.d, mp), base.d) and _eq(_subs_arr(r.De(), mp), base.De())
         ctx.check(same, f"tsolve: the {'uncoupled' if unc else 'coupled'}/{'nonlinear' if nonlin else 'linear'} arm is the uncoupled linear arm "
                         "(diagonal coefficient matrices, vanishing nonlinear terms)", fn)
+    rs = runs.get((UNC_F, True))
+    if ri is not None and rs is not None:
+        same = _eq(ri.d, rs.d) and _eq(ri.v, rs.v) and _eq(ri.a, rs.a)
+        ctx.check(same, "tsolve: with index-vector partitions (d[kdof] is a copy) the same d, v, a reach the solution as with slice partitions", fn)
+    runs[(UNC_F, True, "index")] = ri
 
 
 def r3_differences(ctx):
     fn, runs = _tsolve_runs(ctx)
-    live = {k: r for k, r in runs.items() if r is not None}
+    live = {k: r for k, r in runs.items() if r is not None and len(k) == 2}
     if not live:
         return
     h2, sqh = 2 * H, H * H
@@ -830,13 +847,15 @@ def r5_implicit_update(ctx):
                       "products", init, None if ok else _show(alpha))
     fn = ctx.src.func(UNC, "SolveUnc._solve_real_unc_cdforces")
     nt = 3
-    for order in (1, 0):
-        tag = f"_solve_real_unc_cdforces (order {order})"
+    for order, ip in ((1, False), (0, True)):
+        tag = f"_solve_real_unc_cdforces (order {order}, {'index-vector' if ip else 'slice'} partitions)"
         pc = _pc()
         bo = _offdiag("bo", N)
         pc.attrs["alpha"] = _alpha_doc(bo, pc.attrs["Bp"])
         it = I.Interp(ctx)
-        me = I.Obj(it.cls(UNC, "SolveUnc"), "self", pc=pc, bo=bo, kdof=slice(None), order=order, slices=True, ksize=N, nonrfsz=N)
+        part = _ivec(*range(N)) if ip else slice(None)
+        me = I.Obj(it.cls(UNC, "SolveUnc"), "self", pc=pc, bo=bo, kdof=part, nonrf=part, order=order, slices=not ip, ksize=N, nonrfsz=N, n=N, rfsize=0,
+                   unc=True, cdforces=True, systype=I.FLOAT, h=H, rf=slice(0, 0), pre_eig=False)
         zero = F.const(0)
         d, v = I.NDArr.full((N, nt), zero), I.NDArr.full((N, nt), zero)
         q0, qd0 = vec("q0"), vec("qd0")
@@ -876,8 +895,8 @@ def r6_typing(ctx):
 
 
 RULES = [
-    ("C17-R1", r1_four_branch_agreement, 15),
-    ("C17-R2", r2_code_equals_documentation, 37),
+    ("C17-R1", r1_four_branch_agreement, 16),
+    ("C17-R2", r2_code_equals_documentation, 45),
     ("C17-R3", r3_differences, 9),
     ("C17-R4", r4_cdf_equals_unc_on_diagonal, 7),
     ("C17-R5", r5_implicit_update, 8),
